@@ -79,6 +79,30 @@ STATIC = {
 }
 
 
+# helpers that have their own contract (the FFT-manager singleton: generate_fft_manager) are not followed
+UNDER_OWN_CONTRACT = {"get_fft_manager", "reset_fft_manager", "get_logger"}
+
+
+def reachable_helpers(modname, qualname, limit=40):
+    """qualname plus the module-level functions of the same module it (transitively) refers to by name."""
+    from pyvc.harness import module_level_binding
+    seen, todo = [], [qualname]
+    while todo and len(seen) < limit:
+        q = todo.pop()
+        if q in seen:
+            continue
+        seen.append(q)
+        try:
+            free = global_reads(modname, q)[0]
+        except Exception:
+            continue
+        for n in sorted(free):
+            b = module_level_binding(modname, n)
+            if b and b[0] == "function" and n not in seen and n not in UNDER_OWN_CONTRACT:
+                todo.append(n)
+    return seen
+
+
 def generate_static(ctx, only=None):
     """AST-level frame: the function reads no MUTABLE module-level state (a memo dict, an
     accumulator list, a rebinding through `global`), writes no module attribute and has no
@@ -92,15 +116,26 @@ def generate_static(ctx, only=None):
 
         def thunk(run, fq=fq, props=props):
             modname, qual = fq.split(":")
-            free, glob, attr_store, mdef = global_reads(modname, qual)
+            free, glob, attr_store, mdef = set(), set(), [], []
+            helpers = reachable_helpers(modname, qual) if "." not in qual else [qual]
+            for q in helpers:      # the function and the module-level helpers it reaches (same module)
+                f_, g_, a_, m_ = global_reads(modname, q)
+                free |= f_
+                glob |= g_
+                attr_store += [x for x in a_ if x.split(".")[0] in f_ and (module_level_binding(modname, x.split(".")[0]) or ("", None))[0] not in ("", None)] if q != qual else a_
+                mdef += m_
             run.scope = fq.replace("bldfm.", "")
             mutable = sorted(n for n in free if (module_level_binding(modname, n) or ("", None))[0] == "mutable")
+            # SUFFICIENT conditions for "the result is a function of the arguments": a module-level memo with a complete
+            # key would break them without breaking the property, so they are structural premises (a violation only
+            # together with a native failing history from the bounded stand-in)
+            st = {"structural": True, "functions_examined": helpers}
             run.oblige("frame.reads-no-mutable-module-state", SBool(not mutable), kind="frame", props=props,
-                       meta={"mutable_module_level_names_read": mutable})
-            run.oblige("frame.declares-no-global", SBool(not glob), kind="frame", props=props, meta={"global": sorted(glob)})
+                       meta=dict(st, mutable_module_level_names_read=mutable))
+            run.oblige("frame.declares-no-global", SBool(not glob), kind="frame", props=props, meta=dict(st, **{"global": sorted(glob)}))
             if fq.startswith("bldfm.solver"):
-                run.oblige("frame.writes-no-module-attribute", SBool(not attr_store), kind="frame", props=props, meta={"stores": attr_store})
-            run.oblige("frame.no-mutable-default-argument", SBool(not mdef), kind="frame", props=props, meta={"defaults": mdef})
+                run.oblige("frame.writes-no-module-attribute", SBool(not attr_store), kind="frame", props=props, meta=dict(st, stores=attr_store))
+            run.oblige("frame.no-mutable-default-argument", SBool(not mdef), kind="frame", props=props, meta=dict(st, defaults=mdef))
             info = frontend.FuncInfo(modname, qual, frontend.module(modname).find(qual), frontend.module(modname))
             ctx.add_function(info)
         ctx.explore("static-frames:" + fq, thunk, props)
